@@ -9,6 +9,7 @@ from vf.runner import Acc
 from vf.spec import bits
 
 ID = "C10"
+OPT_QUICK_ALL = True      # every partition also in a child interpreter started with -O
 LEVEL = "exploration"
 TECHNIQUE = "bounded exhaustive enumeration of codec layouts/values/orders against an independent whole-buffer integer oracle"
 RULE = ("int<->bytes: sizes 0..9 x (all values for size<=2, boundary alphabet above); single fields: every contiguous mask of "
